@@ -236,6 +236,10 @@ def arr_attr(I, a, attr, node):
         elif b.dtype == "complex64":
             b.dtype = "float32"
         return b
+    if attr == "imag":
+        # Im(x) = Re(-i x)
+        b = elementwise(I, ast.Mult(), -alg.IMAG, a, node)
+        return arr_attr(I, b, "real", node) if isinstance(b, Arr) else Unknown("imag")
     if attr == "ndim":
         return alg.const(a.ndim)
     if attr == "size":
@@ -285,6 +289,19 @@ def _slice_len(I, sl, dim):
     hi = sl.hi if sl.hi is not None else dim
     if not (isinstance(lo, Expr) and isinstance(hi, Expr) and isinstance(dim, Expr)):
         return Unknown("slice with bounds %r:%r" % (sl.lo, sl.hi)), ZERO
+    # symbolic bounds of the form -E (E >= 0): "E from the end" - but for E == 0 numpy reads the bound as 0
+    def from_end(b, what):
+        if b.as_const() is None and alg._lead_negative(b):
+            poss = I.facts.possible(-b)
+            if poss <= {"+"}:
+                return dim + b
+            if poss <= {"+", "0"}:
+                I.event("index-wrap", getattr(I, "cur_node", None), "slice %s bound %r means '%r from the end' only while it is non-zero: when it is 0 the bound is 0 and the slice is empty" % (what, b, -b))
+                return dim + b
+        return b
+
+    hi = from_end(hi, "upper")
+    lo = from_end(lo, "lower")
     c = const_int(hi)
     if c is not None and c < 0:
         hi = dim + hi
@@ -332,10 +349,51 @@ def level_axis(arr):
     return None
 
 
+def _index_can_wrap(I, e):
+    """is the integer index e = (a quantity that is provably >= L) + c0 with L + c0 < 0 ?  Then numpy wraps it around
+    silently.  Only manifest cases are reported: every non-constant term must have a known sign."""
+    if not isinstance(e, Expr) or e.as_const() is not None:
+        return None
+    x = e.expand()
+    lb = Q(0)
+    c0 = Q(0)
+    for mono, c in x.n.items():
+        if c.im != 0:
+            return None
+        if len(mono) == 0:
+            c0 += c.re
+            continue
+        if c.re < 0:
+            return None  # would need an upper bound
+        term = c.re
+        for a, p in mono:
+            if not isinstance(p, int) or p < 1:
+                return None
+            ae = alg.atom_expr(a)
+            poss = I.facts.possible(ae)
+            if a.kind == "sym" and (a.name.startswith("i#") or a.name.startswith("j#")):
+                poss = poss & {"+", "0"}
+            if poss <= {"+"}:
+                term *= (Q(1) if a.integer else Q(0)) ** p
+            elif poss <= {"+", "0"}:
+                term *= 0
+            else:
+                return None
+        lb += term
+    if lb + c0 < 0:
+        return "index %r can be as small as %s: a negative index wraps around to the end of the array" % (e, lb + c0)
+    return None
+
+
 def load(I, arr, idx, node, env):
     if arr.shape is None:
         return Unknown("subscript of array with unknown shape")
     items = _expand_index(I, arr, idx, node)
+    for it in items:
+        v = it.val if isinstance(it, Arr) and it.dtype != "bool" else it
+        w = _index_can_wrap(I, v) if isinstance(v, Expr) else None
+        if w:
+            I.event("index-wrap", node, w)
     # 1-D parameter arrays: element atoms
     if arr.ndim == 1 and len(items) == 1 and isinstance(items[0], SliceV) and not items[0].is_full() and items[0].step is None and (isinstance(arr, SymArr) or "gen" in arr.meta):
         sl = items[0]
@@ -999,6 +1057,11 @@ def builtin(I, name, args, kwargs, node, env):
         if isinstance(args[0], SetV):
             return SetV(args[0].items)
         return Unknown("set(%r)" % (args[0],))
+    if name == "slice":
+        xs = list(args) + [None] * (3 - len(args))
+        if len(args) == 1:
+            xs = [None, args[0], None]
+        return SliceV(xs[0], xs[1], xs[2])
     if name == "iter":
         x = args[0]
         if isinstance(x, Tup):
@@ -1207,14 +1270,18 @@ def np_diff(I, args, kwargs, node):
     x = args[0]
     if isinstance(x, Arr) and x.ndim == 1:
         n1 = x.shape[0] - ONE
+        # differences keep the dtype of their operand (an integer grid gives integer spacings)
+        dt = x.dtype
+        if isinstance(x, SymArr) and (dt is None or not str(dt).startswith("inherit")) and dt in (None, "float"):
+            dt = "inherit:%s" % x.name if x.dtype is None else x.dtype
         if isinstance(x, SymArr):
             gen = lambda k, x=x: x.at(k + ONE) - x.at(k)
-            return Arr((n1,), gen(alg.fn("idx", n1, integer=True)), "float", {"diff_of": x, "gen": gen})
+            return Arr((n1,), gen(alg.fn("idx", n1, integer=True)), dt or "float", {"diff_of": x, "gen": gen, "param_derived": x.name})
         g = x.meta.get("gen")
         if g is not None:
             gen = lambda k, g=g: g(k + ONE) - g(k)
-            return Arr((n1,), gen(alg.fn("idx", n1, integer=True)), "float", {"gen": gen})
-        return Arr((n1,), Unknown("generic element of diff"), "float", {"diff_of": x})
+            return Arr((n1,), gen(alg.fn("idx", n1, integer=True)), dt or "float", {"gen": gen})
+        return Arr((n1,), Unknown("generic element of diff"), dt or "float", {"diff_of": x})
     return Unknown("np.diff")
 
 
@@ -1394,12 +1461,20 @@ def np_unique(I, args, kwargs, node):
     ident = "unique@%s:%s" % (I.cur_mod.name, node.lineno)
     n = alg.fn("nunique", x.val if isinstance(x.val, Expr) else alg.sym(tag), integer=True, pos=True)
     U = Arr((n,), alg.fn("elem", alg.sym(tag)), x.dtype, {"sorted_unique": True, "unique_of": x, "ident": ident})
-    if kwargs.get("return_inverse") is True or (len(args) > 2 and args[2] is True):
-        inv = Arr(x.shape, alg.fn("elem", alg.sym("inverse:" + tag), integer=True), "int", {"inverse_of": (U, x)})
-        if kwargs.get("return_index") or kwargs.get("return_counts"):
-            return Unknown("np.unique with several optional outputs")
-        return Tup([U, inv])
-    return U
+    if isinstance(x.val, Expr):
+        I.facts.refine(U.val, I.facts.possible(x.val))  # the distinct values have the sign of the values
+    want_index = kwargs.get("return_index") is True or (len(args) > 1 and args[1] is True)
+    want_inverse = kwargs.get("return_inverse") is True or (len(args) > 2 and args[2] is True)
+    want_counts = kwargs.get("return_counts") is True or (len(args) > 3 and args[3] is True)
+    out = [U]
+    if want_index:
+        # positions of the first occurrences: U = x[index]; NOT the map from requests to slots
+        out.append(Arr((n,), alg.fn("elem", alg.sym("first_index:" + tag), integer=True), "int", {"first_index_of": (U, x)}))
+    if want_inverse:
+        out.append(Arr(x.shape, alg.fn("elem", alg.sym("inverse:" + tag), integer=True), "int", {"inverse_of": (U, x)}))
+    if want_counts:
+        out.append(Arr((n,), alg.fn("elem", alg.sym("counts:" + tag), integer=True, pos=True), "int", {}))
+    return Tup(out) if len(out) > 1 else U
 
 
 def np_sort(I, args, kwargs, node):
